@@ -160,6 +160,16 @@ func Operators() []Op {
 			return map[string]interface{}{"@context": "https://www.w3.org/ns/activitystreams", "type": "Note"}, false
 		}},
 		{"duplicate-into-list", func(cur interface{}, g *prng.R) (interface{}, bool) { return []interface{}{cur, cur}, false }},
+		{"retype", func(cur interface{}, g *prng.R) (interface{}, bool) {
+			// a well-formed value of ANOTHER known type where one type was expected
+			other := g.Str("Note", "Person", "Collection", "OrderedCollectionPage", "Link", "Mention", "Tombstone", "Follow", "Create", "Question", "Relationship", "Place")
+			if m, ok := cur.(map[string]interface{}); ok {
+				c := DeepCopy(m).(map[string]interface{})
+				c["type"] = other
+				return c, false
+			}
+			return other, false
+		}},
 	}
 }
 
